@@ -330,5 +330,391 @@ theorem builtinCall2_rel {ρ : Emb} {ts ts' : List TId} (b : Builtin) (d1 : Nat)
           cases b <;> simp only [builtinCall2] <;>
             exact builtinCall_rel hrec _ d1 (.cons h0 (.cons h1 (.cons h2 (.cons h3 hts))))
 
+/-! ### The pure builtins: the views of related values are equal, so `run` gives the same result on both sides -/
+
+omit hrec in
+theorem view_rel {ρ : Emb} {v v' : Value} (h : RVal ρ v v') : v.view = v'.view := by
+  cases h <;> simp only [Value.view]
+  rename_i xs ys hxs
+  rw [hxs.length_eq]
+
+omit hrec in
+theorem views_rel {ρ : Emb} {vs vs' : List Value} (h : RList RVal ρ vs vs') :
+    vs.map Value.view = vs'.map Value.view := by
+  induction h with
+  | nil => rfl
+  | cons h1 _ ih => simp only [List.map_cons, view_rel h1, ih]
+
+omit hrec in
+theorem primVal_rel {ρ : Emb} (p : Prim) : RVal ρ p.toValue p.toValue := by
+  cases p <;> simp only [Prim.toValue] <;> constructor
+
+omit hrec in
+theorem allocPrims_rel {ρ : Emb} (items : List Prim) : MRel ρ (RList RT) (allocPrims items) (allocPrims items) := by
+  unfold allocPrims
+  mnorm
+  refine MRel_bind (Q₁ := RList RT) ?_ ?_
+  · mfor (RList RT) with acc acc' hacc p hp
+    · exact .nil
+    · mbind (allocThunk_rel (.done (primVal_rel p))) with t t' ht
+      exact MRel_pure (.yield (hacc.snoc ht))
+  · mcont out out' hout
+    exact MRel_pure hout
+
+omit hrec in
+theorem pureOut_rel {ρ : Emb} (o : PureOut) : MRel ρ RVal (pureOut o) (pureOut o) := by
+  unfold pureOut
+  cases o with
+  | prim p => exact MRel_pure (primVal_rel p)
+  | arr items =>
+    simp only []
+    mbind (allocPrims_rel items) with out out' hout
+    exact MRel_pure (.arr hout)
+
+/-- the argument thunks forced in order: related values -/
+theorem forceAll_rel {ρ : Emb} {ts ts' : List TId} (d1 : Nat) {d1' : Nat} (hts : RList RT ρ ts ts')
+    (hd : RDep d1 d1' := by rdep) :
+    MRel ρ (RList RVal) (forceAll rec ts d1) (forceAll rec' ts' d1') := by
+  unfold forceAll
+  mnorm
+  refine MRel_bind (Q₁ := RList RVal) ?_ ?_
+  · refine MRel_forIn RT (RList RVal) hts .nil ?_
+    intro ρ' hle t t' acc acc' _ _ ht hacc
+    lift_hyps hle
+    mbind (hrec _ _ _ (.force d1 ht)) with v v' hv
+    exact MRel_pure (.yield (hacc.snoc hv))
+  · mcont out out' hout
+    exact MRel_pure hout
+
+theorem coerceAll_rel {ρ : Emb} {vals vals' : List Value} (d1 : Nat) {d1' : Nat} (hv : RList RVal ρ vals vals')
+    (hd : RDep d1 d1' := by rdep) :
+    MRel ρ (RList RVal) (coerceAll rec vals d1) (coerceAll rec' vals' d1') := by
+  unfold coerceAll
+  mnorm
+  refine MRel_bind (Q₁ := RList RVal) ?_ ?_
+  · refine MRel_forIn RVal (RList RVal) hv .nil ?_
+    intro ρ' hle v v' acc acc' _ _ hvv hacc
+    lift_hyps hle
+    mbind (coerceToString_rel hrec d1 hvv) with s s' hs
+    cases hs
+    exact MRel_pure (.yield (hacc.snoc (.str _)))
+  · mcont out out' hout
+    exact MRel_pure hout
+
+/-- the elements forced and checked one by one: the same bytes or the same error -/
+theorem forceBytes_rel {ρ : Emb} {items items' : List TId} (item : PArg → Except PErr Nat) (d1 : Nat) {d1' : Nat}
+    (hitems : RList RT ρ items items') (hd : RDep d1 d1' := by rdep) :
+    MRel ρ REq (forceBytes rec items item d1) (forceBytes rec' items' item d1') := by
+  unfold forceBytes
+  mnorm
+  refine MRel_bind (Q₁ := REq) ?_ ?_
+  · refine MRel_forIn RT REq hitems rfl ?_
+    intro ρ' hle it it' acc acc' _ _ hit hacc
+    lift_hyps hle
+    cases hacc
+    mbind (hrec _ _ _ (.force d1 hit)) with v v' hv
+    rw [view_rel hv]
+    cases item v'.view with
+    | ok b => exact MRel_pure (.yield rfl)
+    | error e => exact MRel_throw rfl
+  · mcont out out' hout
+    cases hout
+    exact MRel_pure rfl
+
+/-! #### `std.format`: the same directives consume related thunks; what is rendered depends on views only -/
+
+omit hrec in
+theorem fmtTakeW_rel {ρ : Emb} {items items' : List TId} (spec : Option Format.FW) (i : Nat)
+    (hitems : RList RT ρ items items') :
+    MRel ρ (RProd (ROpt RT) REq) (fmtTakeW spec items i) (fmtTakeW spec items' i) := by
+  unfold fmtTakeW
+  cases spec with
+  | none => exact MRel_pure ⟨.none, rfl⟩
+  | some w =>
+    cases w with
+    | inline n => exact MRel_pure ⟨.none, rfl⟩
+    | ext =>
+      simp only []
+      rw [hitems.length_eq]
+      have hi := hitems.getElem? i
+      gcases hi
+      · exact MRel_throw rfl
+      · exact MRel_pure ⟨.some ‹_›, rfl⟩
+
+theorem fmtForceOpt_rel {ρ : Emb} {t t' : Option TId} (d : Nat) {d' : Nat} (ht : ROpt RT ρ t t')
+    (hd : RDep d d' := by rdep) :
+    MRel ρ (ROpt RVal) (fmtForceOpt rec t d) (fmtForceOpt rec' t' d') := by
+  unfold fmtForceOpt
+  cases ht with
+  | none => exact MRel_pure .none
+  | some h =>
+    simp only []
+    mbind (hrec _ _ _ (.force d h)) with v v' hv
+    exact MRel_pure (.some hv)
+
+/-- the non-string branch of `fmtItem` -/
+theorem fmtItemOther_rel {ρ : Emb} {v v' : Value} (c : Format.Code) (d : Nat) {d' : Nat} (hv : RVal ρ v v')
+    (hd : RDep d d' := by rdep) :
+    MRel ρ REq
+      (if (c.conv == Format.Conv.str) = true then do
+          pure (fmtValOfS v.view (some (← coerceToString rec v d)))
+        else pure (fmtValOf v.view))
+      (if (c.conv == Format.Conv.str) = true then do
+          pure (fmtValOfS v'.view (some (← coerceToString rec' v' d')))
+        else pure (fmtValOf v'.view)) := by
+  rw [view_rel hv]
+  split
+  · mbind (coerceToString_rel hrec d hv) with s s' hs
+    cases hs
+    exact MRel_pure rfl
+  · exact MRel_pure rfl
+
+theorem fmtItem_rel {ρ : Emb} {v v' : Value} (c : Format.Code) (d : Nat) {d' : Nat} (hv : RVal ρ v v')
+    (hd : RDep d d' := by rdep) :
+    MRel ρ REq (fmtItem rec c v d) (fmtItem rec' c v' d') := by
+  unfold fmtItem
+  cases hv <;> simp only []
+  case str => exact MRel_pure rfl
+  case null => exact fmtItemOther_rel hrec c d .null
+  case bool b => exact fmtItemOther_rel hrec c d (.bool b)
+  case num f => exact fmtItemOther_rel hrec c d (.num f)
+  case arr h => exact fmtItemOther_rel hrec c d (.arr h)
+  case obj h => exact fmtItemOther_rel hrec c d (.obj h)
+  case func h => exact fmtItemOther_rel hrec c d (.func h)
+
+omit hrec in
+theorem optView_rel {ρ : Emb} {a a' : Option Value} (h : ROpt RVal ρ a a') :
+    a.map Value.view = a'.map Value.view := by
+  cases h with
+  | none => rfl
+  | some h => simp only [Option.map_some, view_rel h]
+
+theorem fmtArrayCode_rel {ρ : Emb} {items items' : List TId} (c : Format.Code) (i : Nat) (d : Nat) {d' : Nat}
+    (hitems : RList RT ρ items items') (hd : RDep d d' := by rdep) :
+    MRel ρ REq (fmtArrayCode rec c items i d) (fmtArrayCode rec' c items' i d') := by
+  unfold fmtArrayCode
+  mbind (fmtTakeW_rel c.fw i hitems) with a a' ha
+  obtain ⟨fwT, i1⟩ := a
+  obtain ⟨fwT', i1'⟩ := a'
+  obtain ⟨hfwT, hi1⟩ := ha
+  cases hi1
+  simp only []
+  mbind (fmtTakeW_rel c.prec i1 hitems) with b b' hb
+  obtain ⟨precT, i2⟩ := b
+  obtain ⟨precT', i2'⟩ := b'
+  obtain ⟨hprecT, hi2⟩ := hb
+  cases hi2
+  simp only []
+  mbind (fmtForceOpt_rel hrec d hfwT) with fwV fwV' hfwV
+  have hpt : ROpt RT ρ' (if Format.usesPrec c.conv = true then precT else none)
+      (if Format.usesPrec c.conv = true then precT' else none) := by
+    split
+    · exact hprecT
+    · exact .none
+  mbind (fmtForceOpt_rel hrec d hpt) with precV precV' hprecV
+  rw [optView_rel hfwV, optView_rel hprecV]
+  rw [hitems.length_eq]
+  cases fmtPrecWidth c (fwV'.map Value.view) (precV'.map Value.view) with
+  | error e => exact MRel_throw rfl
+  | ok r =>
+    obtain ⟨fw, prec⟩ := r
+    simp only []
+    mnorm
+    split
+    · exact MRel_pure rfl
+    · have hi := hitems.getElem? i2
+      gcases hi
+      · exact MRel_throw rfl
+      · rename_i t t' ht
+        simp only []
+        mbind (hrec _ _ _ (.force d ht)) with v v' hv
+        mbind (fmtItem_rel hrec c d hv) with fv fv' hfv
+        cases hfv
+        cases fmtRender c fw prec fv with
+        | ok s => exact MRel_pure rfl
+        | error e => exact MRel_throw rfl
+
+theorem fmtArrayPart_rel {ρ : Emb} {items items' : List TId} (p : Format.Part) (i : Nat) (out : List Char) (d : Nat) {d' : Nat}
+    (hitems : RList RT ρ items items') (hd : RDep d d' := by rdep) :
+    MRel ρ REq (fmtArrayPart rec p items i out d) (fmtArrayPart rec' p items' i out d') := by
+  unfold fmtArrayPart
+  cases p with
+  | lit s => exact MRel_pure rfl
+  | code c =>
+    simp only []
+    mbind (fmtArrayCode_rel hrec c i d hitems) with r r' hr
+    cases hr
+    exact MRel_pure rfl
+
+theorem fmtArray_rel {ρ : Emb} {items items' : List TId} (parts : List Format.Part) (d : Nat) {d' : Nat}
+    (hitems : RList RT ρ items items') (hd : RDep d d' := by rdep) :
+    MRel ρ RVal (fmtArray rec parts items d) (fmtArray rec' parts items' d') := by
+  unfold fmtArray
+  mnorm
+  rw [hitems.length_eq]
+  refine MRel_bind (Q₁ := REq) ?_ ?_
+  · mfor REq with acc acc' hacc p hp
+    · rfl
+    · cases hacc
+      mbind (fmtArrayPart_rel hrec p acc.1 acc.2 d hitems) with r r' hr
+      cases hr
+      exact MRel_pure (.yield rfl)
+  · mcont st st' hst
+    cases hst
+    split
+    · exact MRel_throw rfl
+    · exact MRel_pure (.str _)
+
+theorem fmtObjectCode_rel {ρ : Emb} {o o' : OId} (c : Format.Code) (d : Nat) {d' : Nat} (ho : RO ρ o o')
+    (hd : RDep d d' := by rdep) :
+    MRel ρ REq (fmtObjectCode rec c o d) (fmtObjectCode rec' c o' d') := by
+  unfold fmtObjectCode
+  cases Format.objWidth c.fw .objStarWidth with
+  | error e => exact MRel_throw rfl
+  | ok fw =>
+    cases Format.objWidth c.prec .objStarPrec with
+    | error e => exact MRel_throw rfl
+    | ok prec =>
+      mnorm
+      split
+      · exact MRel_pure rfl
+      · cases c.mkey with
+        | none => exact MRel_throw rfl
+        | some k =>
+          simp only []
+          mbind (fieldThunk_rel 0 (String.ofList k) ho) with ft ft' hft
+          cases hft with
+          | none => exact MRel_throw rfl
+          | some ht =>
+            simp only []
+            mbind (hrec _ _ _ (.asserts d ho)) with u u' hu
+            mbind (hrec _ _ _ (.force d ht)) with v v' hv
+            mbind (fmtItem_rel hrec c d hv) with fv fv' hfv
+            cases hfv
+            cases fmtRender c fw prec fv with
+            | ok s => exact MRel_pure rfl
+            | error e => exact MRel_throw rfl
+
+theorem fmtObjectPart_rel {ρ : Emb} {o o' : OId} (p : Format.Part) (out : List Char) (d : Nat) {d' : Nat} (ho : RO ρ o o')
+    (hd : RDep d d' := by rdep) :
+    MRel ρ REq (fmtObjectPart rec p o out d) (fmtObjectPart rec' p o' out d') := by
+  unfold fmtObjectPart
+  cases p with
+  | lit s => exact MRel_pure rfl
+  | code c =>
+    simp only []
+    mbind (fmtObjectCode_rel hrec c d ho) with r r' hr
+    cases hr
+    exact MRel_pure rfl
+
+theorem fmtObject_rel {ρ : Emb} {o o' : OId} (parts : List Format.Part) (d : Nat) {d' : Nat} (ho : RO ρ o o')
+    (hd : RDep d d' := by rdep) :
+    MRel ρ RVal (fmtObject rec parts o d) (fmtObject rec' parts o' d') := by
+  unfold fmtObject
+  mnorm
+  refine MRel_bind (Q₁ := REq) ?_ ?_
+  · mfor REq with acc acc' hacc p hp
+    · rfl
+    · cases hacc
+      mbind (fmtObjectPart_rel hrec p acc d ho) with r r' hr
+      cases hr
+      exact MRel_pure (.yield rfl)
+  · mcont out out' hout
+    cases hout
+    exact MRel_pure (.str _)
+
+theorem pureFinish_rel {ρ : Emb} {vals vals' : List Value} (spec : PureSpec) (d1 : Nat) {d1' : Nat}
+    (hv : RList RVal ρ vals vals') (hd : RDep d1 d1' := by rdep) :
+    MRel ρ RVal (pureFinish rec spec vals d1) (pureFinish rec' spec vals' d1') := by
+  unfold pureFinish
+  rw [views_rel hv]
+  cases spec.run (vals'.map Value.view) with
+  | error e => exact MRel_throw rfl
+  | ok st =>
+    cases st with
+    | done out => exact pureOut_rel out
+    | elems i item finish =>
+      simp only []
+      have hi := hv.getElem? i
+      gcases hi
+      · exact MRel_throw rfl
+      · rename_i a b hab
+        cases hab <;> simp only [] <;> try exact MRel_throw rfl
+        rename_i items items' hitems
+        mbind (forceBytes_rel hrec item d1 hitems) with bytes bytes' hb
+        cases hb
+        cases finish bytes with
+        | ok out => exact pureOut_rel out
+        | error e => exact MRel_throw rfl
+    | fmt parts =>
+      simp only []
+      have hi := hv.getElem? 1
+      gcases hi
+      · exact MRel_throw rfl
+      · rename_i a b hab
+        cases hab <;> simp only []
+        case arr h => exact fmtArray_rel hrec parts d1 h
+        case obj h => exact fmtObject_rel hrec parts d1 h
+        case null =>
+          mbind (allocThunk_rel (.done .null)) with t t' ht
+          exact fmtArray_rel hrec parts d1 (.cons ht .nil)
+        case bool b =>
+          mbind (allocThunk_rel (.done (.bool b))) with t t' ht
+          exact fmtArray_rel hrec parts d1 (.cons ht .nil)
+        case num f =>
+          mbind (allocThunk_rel (.done (.num f))) with t t' ht
+          exact fmtArray_rel hrec parts d1 (.cons ht .nil)
+        case str s =>
+          mbind (allocThunk_rel (.done (.str s))) with t t' ht
+          exact fmtArray_rel hrec parts d1 (.cons ht .nil)
+        case func h =>
+          mbind (allocThunk_rel (.done (.func h))) with t t' ht
+          exact fmtArray_rel hrec parts d1 (.cons ht .nil)
+
+/-- `%` with a string on the left is `std.format`; the other operators as before -/
+theorem binaryOp3_rel {ρ : Emb} {l l' r r' : Value} (op : BinOp) (d : Nat) {d' : Nat} (hasSpan : Bool)
+    (hl : RVal ρ l l') (hr : RVal ρ r r') (hd : RDep d d' := by rdep) :
+    MRel ρ RVal (binaryOp3 cfg rec op l r d hasSpan) (binaryOp3 cfg' rec' op l' r' d' hasSpan) := by
+  unfold binaryOp3
+  cases op <;> cases hl <;> simp only [] <;> try exact binaryOp_rel hrec _ d hasSpan (by first | assumption | (constructor; assumption) | constructor) hr
+  rename_i s
+  cases hasSpan
+  · simp only [Bool.false_eq_true, if_false]
+    mnorm
+    exact pureFinish_rel hrec spec_format d (.cons (.str s) (.cons hr .nil))
+  · simp only [if_true]
+    mbind (checkDepth_rel _ _) with u u' hu
+    exact pureFinish_rel hrec spec_format (d + 1) (.cons (.str s) (.cons hr .nil))
+
+/-- the generic pure builtin on related argument thunks: the same error or related values -/
+theorem std_pure_rel {ρ : Emb} {ts ts' : List TId} (spec : PureSpec) (d1 : Nat) {d1' : Nat} (hts : RList RT ρ ts ts')
+    (hd : RDep d1 d1' := by rdep) :
+    MRel ρ RVal (std_pure rec spec ts d1) (std_pure rec' spec ts' d1') := by
+  unfold std_pure
+  mbind (forceAll_rel hrec d1 hts) with forced forced' hf
+  cases spec.coerce with
+  | true =>
+    simp only [if_true]
+    mbind (coerceAll_rel hrec d1 hf) with vals vals' hv
+    exact pureFinish_rel hrec spec d1 hv
+  | false =>
+    simp only [Bool.false_eq_true, if_false]
+    mnorm
+    exact pureFinish_rel hrec spec d1 hf
+
+/-- every builtin of `builtinCall3`, applied to related argument thunks -/
+theorem builtinCall3_rel {ρ : Emb} {ts ts' : List TId} (b : Builtin) (d1 : Nat) {d1' : Nat} (hts : RList RT ρ ts ts')
+    (hd : RDep d1 d1' := by rdep) :
+    MRel ρ RVal (builtinCall3 cfg rec b ts d1) (builtinCall3 cfg' rec' b ts' d1') := by
+  unfold builtinCall3
+  cases pureBuiltin b with
+  | none => exact builtinCall2_rel hrec b d1 hts
+  | some spec =>
+    simp only []
+    rw [hts.length_eq]
+    split
+    · exact std_pure_rel hrec spec d1 hts
+    · exact MRel_throw rfl
+
 end
 end Rsj.Eval
